@@ -343,6 +343,11 @@ def verify_config(contract, cfg, tier="quick", seed=0, timeout_s=10.0, spec_fact
                 r = discharge(cl, sp, timeout_s)
                 r["path"] = len(records) - 1
                 per_label.setdefault(cl.label, []).append((cl, r))
+    except Undecided as e:
+        # the (changed) code left the verifier's model: no proof either way.  Search for a failing input natively instead: a witness is a
+        # violation replayed on the real code; no witness leaves every clause undecided (never a violation, never a pass)
+        P.set_current(None)
+        return native_search_fallback(contract, cfg, mk0, names, seed, tier, f"{type(e).__name__}: {e}", common, cname, cfg_tag, spec_factory)
     finally:
         P.set_current(None)
 
@@ -424,6 +429,48 @@ def verify_config(contract, cfg, tier="quick", seed=0, timeout_s=10.0, spec_fact
         for k, v in common.items():
             setattr(can, k, v)
         results.append(can)
+    return results
+
+
+def native_search_fallback(contract, cfg, mk0, names, seed, tier, reason, common, cname, cfg_tag, spec_factory):
+    rng = random.Random(seed * 1000003 + zlib.crc32((cname + cfg_tag + "/fallback").encode()) % 100000)
+    Wn = World(False, None, spec_factory)
+    want = 60 if tier == "quick" else 300
+    tried, draws = 0, 0
+    first_fail, seen = {}, []
+    while tried < want and draws < want * 30:
+        draws += 1
+        vals = contract.sample(cfg, names, rng)
+        try:
+            if not all(SC.eval_bool(r, _env_ids(vals)) for r in mk0.requires if r is not True):
+                continue
+        except (KeyError, ZeroDivisionError, OverflowError):
+            continue
+        tried += 1
+        try:
+            out, chk = native_clauses(contract, Wn, cfg, vals)
+        except Exception:  # noqa
+            continue
+        for label, (ok, detail) in chk.items():
+            if label not in seen:
+                seen.append(label)
+            if not ok and label not in first_fail:
+                first_fail[label] = (vals, detail, out)
+    results = []
+    for label in seen:
+        res = ObResult(name=f"{cname}/{label}{cfg_tag}", status=R.UNDECIDED, clause=label, extra=dict(config=cfg_str(cfg), native_inputs_tried=tried), **common)
+        if label in first_fail:
+            vals, detail, out = first_fail[label]
+            res.status = R.REFUTED
+            res.witness = dict(inputs={k: vals[k] for k in list(vals)[:64]}, n_inputs=len(vals))
+            res.replay = dict(confirmed=True, how="the code left the verifier's model (" + reason[:200] + "); native execution of the real function on float64 inputs, "
+                              "clause evaluated natively (rel. tol 1e-8)", inputs=vals, observed=detail, outcome=repr(out)[:600])
+            res.detail = f"clause `{label}` fails on the real code: {detail}"
+        else:
+            res.detail = f"outside the verifier's model ({reason[:200]}); native search over {tried} inputs found no failing input"
+        results.append(res)
+    if not results:
+        results.append(ObResult(name=f"{cname}{cfg_tag}/undecided", status=R.UNDECIDED, detail=f"outside the verifier's model ({reason[:300]}); no native input could be run", **common))
     return results
 
 
